@@ -14,7 +14,7 @@ CHECKS = {
  "C03": {
   "level": "model_checking",
   "technique": "TLA+ Ideal option semantics (Net!Hit) + code-shaped hit model checked by TLC; every exported case replayed on single-rule engines and NetworkMatchable::matches",
-  "text": "TLC enumerates every rule of {7 rule shapes} x {type-option sets} x {any,3p,1p} x {4 domain-list variants} (one state per rule), checks that the code-shaped hit model refines the Ideal outside named deviations, and exports the Ideal verdict/hit for every request of {request-type aliases} x {https,http,ws,wss,ftp} x {6 source relations}; each is executed on a real single-rule engine (optimised and not) and on the public matcher. Exhaustive over that cross product (quick: <=1 type atom plus selected pairs; thorough: all pairs and all 24 aliases).",
+  "text": "TLC enumerates every rule of {7 rule shapes} x {type-option sets} x {any,3p,1p} x {4 domain-list variants} (one state per rule), checks that the code-shaped hit model refines the Ideal outside named deviations, and exports the Ideal verdict/hit for every request of {request-type aliases} x {https,http,ws,wss,ftp} x {6 source relations}; each is executed on a real single-rule engine (optimised and not) and on the public matcher. Exhaustive over that cross product (quick: <=1 type atom plus selected pairs; thorough: all pairs and all 24 aliases). The text side is covered by Options.tla (option spelling -> rule AST: every option name and alias, negated or not, with good and bad values, unknown names; refused combinations): TLC enumerates every sequence of <=2 (quick) / <=3 tokens on plain and ||host^ patterns, blocking and exception, checks that aliases are exact synonyms, and exports accept/reject plus the Ideal verdicts of the parsed rule for replay on parse_filter and a real engine.",
   "note": TB + "Third-party computed in the spec (single-label suffixes). $domain= without source hostname unspecified. match-case not covered (needs full-regex rules). Domain lists are fixed variants, not random.",
  },
  "C13": {
